@@ -607,3 +607,185 @@ func runC07_12(c *core.Ctx) {
 		c.Undecided("gnet", "close after hand-over", 0, "no creator-side close after a hand-over found (accept0's failure path is the confirmed instance)")
 	}
 }
+
+func init() {
+	register(&core.Rule{ID: "C07.13", Prop: "C07", MinSites: 8,
+		Desc: "the public Conn methods do not touch a released descriptor: every exported method of *conn that reaches a system call on c.fd (directly, through c.write/c.writev or through the loop's write) does so only where c.opened was tested on this path or on the datagram branch (a UDP conn borrows the listener's descriptor); an earlier call of the same callback may have failed and closed the connection, and the number may already be someone else's",
+		Run: runC07_13})
+}
+
+func runC07_13(c *core.Ctx) {
+	v := vocabOf(c)
+	if v == nil {
+		return
+	}
+	isDgramF := c.P.Field("", "conn", "isDatagram")
+	if !c.Need("conn.isDatagram", isDgramF) {
+		return
+	}
+	// does fn use the fd of its conn (receiver or conn parameter) in a call outside the module without
+	// having tested c.opened?  memoised, depth-limited
+	type key struct {
+		fn *types.Func
+	}
+	memo := map[key]int{} // 0 unknown, 1 yes, 2 no, 3 in progress
+	var touches func(fo *types.Func, depth int) bool
+	connVarsOf := func(f *fn) map[types.Object]bool {
+		out := map[types.Object]bool{}
+		if rv := f.recvVar(); rv != nil && v.isConnPtr(rv.Type()) {
+			out[rv] = true
+		}
+		sig := f.Obj.Type().(*types.Signature)
+		for i := 0; i < sig.Params().Len(); i++ {
+			if v.isConnPtr(sig.Params().At(i).Type()) {
+				out[sig.Params().At(i)] = true
+			}
+		}
+		return out
+	}
+	type site struct {
+		pos  token.Pos
+		what string
+	}
+	analyse := func(f *fn, depth int) []site {
+		cv := connVarsOf(f)
+		if len(cv) == 0 {
+			return nil
+		}
+		const (
+			fOpen = 1 << iota
+			fDgram
+		)
+		p := &flow.Problem{Must: true}
+		isConnField := func(e ast.Expr, fl *types.Var) bool {
+			sel, ok := ast.Unparen(e).(*ast.SelectorExpr)
+			return ok && flow.FieldOf(f.Info, sel) == fl && cv[flow.ObjOf(f.Info, sel.X)]
+		}
+		closedHelper := func(e ast.Expr) bool {
+			// c.closed(): a bool method of *conn whose body mentions c.opened
+			call, ok := ast.Unparen(e).(*ast.CallExpr)
+			if !ok {
+				return false
+			}
+			cf := flow.CalleeFunc(f.Info, call)
+			hf := fnOf(c, cf)
+			if cf == nil || hf == nil || hf.Decl.Body == nil {
+				return false
+			}
+			r := flow.Recv(call)
+			if r == nil || !cv[flow.ObjOf(f.Info, r)] {
+				return false
+			}
+			uses := false
+			ast.Inspect(hf.Decl.Body, func(n ast.Node) bool {
+				if sel, ok := n.(*ast.SelectorExpr); ok && flow.FieldOf(hf.Info, sel) == v.opened {
+					uses = true
+				}
+				return true
+			})
+			return uses
+		}
+		p.Edge = func(e *flow.Edge, in uint64) uint64 {
+			if e.Cond == nil || e.Tag != nil {
+				return in
+			}
+			switch {
+			case isConnField(e.Cond, v.opened):
+				if e.Sense {
+					in |= fOpen
+				}
+			case isConnField(e.Cond, isDgramF):
+				if e.Sense {
+					in |= fOpen // one fact for "open or datagram": the two justify a descriptor use alike and meet at joins
+				}
+			case closedHelper(e.Cond):
+				if !e.Sense {
+					in |= fOpen // not closed: open, or a datagram conn
+				}
+			}
+			return in
+		}
+		sol := f.Graph().Solve(p)
+		var out []site
+		sol.Walk(func(b *flow.Block, i int, n ast.Node, before uint64) {
+			if before&(fOpen|fDgram) != 0 {
+				return
+			}
+			for _, call := range flow.Calls(n) {
+				cf := flow.CalleeFunc(f.Info, call)
+				if cf == nil || cf.Pkg() == nil {
+					continue
+				}
+				usesFd := false
+				passesConn := false
+				for _, arg := range call.Args {
+					if isConnField(arg, v.fdF) {
+						usesFd = true
+					}
+					if cv[flow.ObjOf(f.Info, arg)] {
+						passesConn = true
+					}
+				}
+				if r := flow.Recv(call); r != nil && cv[flow.ObjOf(f.Info, r)] {
+					passesConn = true
+				}
+				if usesFd && (!isModulePkg(cf.Pkg().Path()) || strings.HasSuffix(cf.Pkg().Path(), "/pkg/socket") || strings.HasSuffix(cf.Pkg().Path(), "/pkg/io")) {
+					out = append(out, site{call.Pos(), core.FuncName(cf) + "(" + "c.fd" + ")"})
+					continue
+				}
+				if passesConn && isModulePkg(cf.Pkg().Path()) && v.byObj[cf] != nil && depth < 3 && touches(cf, depth+1) {
+					out = append(out, site{call.Pos(), "call of " + core.FuncName(cf)})
+				}
+			}
+		})
+		return out
+	}
+	touches = func(fo *types.Func, depth int) bool {
+		k := key{fo}
+		switch memo[k] {
+		case 1:
+			return true
+		case 2, 3:
+			return false
+		}
+		memo[k] = 3
+		f := fnOf(c, fo)
+		res := f != nil && f.Decl.Body != nil && len(analyse(f, depth)) > 0
+		if res {
+			memo[k] = 1
+		} else {
+			memo[k] = 2
+		}
+		return res
+	}
+	for _, f := range v.funcs {
+		rv := f.recvVar()
+		if rv == nil || !v.isConnPtr(rv.Type()) || !ast.IsExported(f.Obj.Name()) || f.Decl.Body == nil {
+			continue
+		}
+		sites := analyse(f, 0)
+		// does the method touch the descriptor at all (guarded or not)?
+		touchesAtAll := false
+		ast.Inspect(f.Decl.Body, func(n ast.Node) bool {
+			if sel, ok := n.(*ast.SelectorExpr); ok && flow.FieldOf(f.Info, sel) == v.fdF {
+				touchesAtAll = true
+			}
+			if call, ok := n.(*ast.CallExpr); ok {
+				if cf := flow.CalleeFunc(f.Info, call); cf != nil && (cf.Name() == "write" || cf.Name() == "writev") && v.byObj[cf] != nil {
+					touchesAtAll = true
+				}
+			}
+			return true
+		})
+		if f.Obj.Name() == "Fd" {
+			continue // hands out the number, performs no system call
+		}
+		if len(sites) > 0 {
+			c.Violate(f.Name, "descriptor use behind an open test", sites[0].pos, "Conn."+f.Obj.Name()+" reaches "+sites[0].what+" without c.opened having been tested on this path: called by a handler after an earlier Write of the same callback failed (which closed the connection and its descriptor), it acts on whatever file or connection has been given that number since")
+			continue
+		}
+		if touchesAtAll {
+			c.Ok(f.Name, "descriptor use behind an open test", f.Decl.Pos(), "every use of c.fd is behind c.opened / on the datagram branch")
+		}
+	}
+}
